@@ -79,11 +79,11 @@ TypeOK ==
   NoRepeat(s.board) =>
     \A a \in Actions : Legal(s, a) <=> (At(s.board, SdCellOf(a)) = SdEmpty /\ NoRepeat(Place(s.board, a)))
 (* C04 *) MaskLayout ==
-  \A a \in Actions : Mask(s)[a[1] + 1][a[2] + 1][a[3] + 1] = Legal(s, a)
+  LET m == MaskB(s.board) IN \A a \in Actions : m[a[1] + 1][a[2] + 1][a[3] + 1] = Legal(s, a)
 (* C04 *) ContinuesIffLegalLeft == last.type \in {FIRST, MID} => ~NoLegalAction(s.board)
 (* C05 *) IllegalUniform ==
-  \A a1, a2 \in { a \in Actions : ~Legal(s, a) } :
-     Succ(s, a1) = Succ(s, a2) /\ Done(s, a1) = Done(s, a2) /\ Reward(s, a1) = Reward(s, a2)
+  \A rep \in IllegalRep : \A a \in Actions :
+     ~Legal(s, a) => (Succ(s, a) = Succ(s, rep) /\ Done(s, a) = Done(s, rep) /\ Reward(s, a) = Reward(s, rep))
 (* C05 *) InvalidEffect == [][ (~last'.legal) => (last'.type = LAST /\ last'.reward = 0) ]_vars
 (* C06 *) FeasibleUnderLegalPlay == allLegal => Feasible(s)
 (* C06 *) CompletionIsSolution == (over /\ allLegal /\ SdFull(s.board)) => (Solved(s.board) /\ ret = 1)
@@ -100,7 +100,8 @@ TypeOK ==
   /\ ~over => (steps = h0 - SdEmptyCount(s.board) /\ steps < h0)
   /\ steps >= h0 => over
 (* C12 *) ObsOK ==
-  /\ Obs(s).board = s.board
-  /\ (last.type = MID => \E a \in Actions : Obs(s).action_mask[a[1] + 1][a[2] + 1][a[3] + 1])
-  /\ ((last.type = LAST /\ last.legal) => \A a \in Actions : ~Obs(s).action_mask[a[1] + 1][a[2] + 1][a[3] + 1])
+  LET o == Obs(s) IN
+  /\ o.board = s.board
+  /\ (last.type = MID => \E a \in Actions : o.action_mask[a[1] + 1][a[2] + 1][a[3] + 1])
+  /\ ((last.type = LAST /\ last.legal) => \A a \in Actions : ~o.action_mask[a[1] + 1][a[2] + 1][a[3] + 1])
 =============================================================================
